@@ -602,7 +602,7 @@ OpOut encrypt(const bytes &plain, const bytes &key, const bytes &seed, int cmode
   sd.push_back(0);
   with_sched(pc, plain.size() / 16 + 2, o, [&] {
     Settings s((char)cmode, (char)hmode, true);
-    runcrypt rc(fi, fo, k.data(), s, (u8_t)pc.T);
+    runcrypt rc(fi, fo, pc.key_buf ? pc.key_buf : k.data(), s, (u8_t)pc.T);
     o.ret = rc.execute_encrypt(pc.fsize_hint >= 0 ? (size_t)pc.fsize_hint : plain.size(), pc.seed_buf ? pc.seed_buf : sd.data());
   });
   finish(o, in, plain, &out);
@@ -626,7 +626,7 @@ OpOut decrypt(const bytes &file, const bytes &key, const PipeCfg &pc)
   k.resize(16);
   with_sched(pc, file.size() / 16 + 2, o, [&] {
     Settings s((char)pc.hint_c, (char)pc.hint_h, true);
-    runcrypt rc(fi, fo, k.data(), s, (u8_t)pc.T);
+    runcrypt rc(fi, fo, pc.key_buf ? pc.key_buf : k.data(), s, (u8_t)pc.T);
     o.ret = rc.execute_decrypt(pc.fsize_hint >= 0 ? (size_t)pc.fsize_hint : file.size());
   });
   finish(o, in, file, &out);
@@ -648,7 +648,7 @@ OpOut verify(const bytes &file, const bytes &key, const PipeCfg &pc, bool with_o
   k.resize(16);
   with_sched(pc, file.size() / 16 + 2, o, [&] {
     Settings s((char)pc.hint_c, (char)pc.hint_h, true);
-    runcrypt rc(fi, fo, k.data(), s, (u8_t)pc.T);
+    runcrypt rc(fi, fo, pc.key_buf ? pc.key_buf : k.data(), s, (u8_t)pc.T);
     o.ret = rc.execute_verify(pc.fsize_hint >= 0 ? (size_t)pc.fsize_hint : file.size());
   });
   finish(o, in, file, with_out ? &out : NULL);
